@@ -477,9 +477,27 @@ def long_frames(gen, vt, victim_is_server, stub):
                 fr += [C.mk_continuation(sid, p, i == len(parts) - 2) for i, p in enumerate(parts[1:])]
                 return fr
             return [C.mk_headers(sid, frag, es, True)]
+    if not victim_is_server and r < 0.30 and vt.mine.get(C.S_ENABLE_PUSH, 1):
+        # push churn against a client: promise a stream (sometimes answer it), the resets below close them again
+        parents = [s for s in live if s.mine and not s.pushed and s.state in ('open', 'hcL')]
+        nxt = max([s.sid for s in vt.streams.values() if s.sid % 2 == 0] + [0]) + 2
+        if parents and nxt <= MAXID and len(live) < 40:
+            hl = [(':method', 'GET'), (':scheme', 'https'), (':authority', 'a'), (':path', '/p%d' % (nxt % 5))]
+            fr = [C.mk_push_promise(rng.choice(parents).sid, nxt, _enc(hl), True, None)]
+            if rng.random() < 0.3:
+                fr.append(C.mk_headers(nxt, _enc([(':status', '200')]), rng.random() < 0.6, True))
+            return fr
     if r < 0.5 and live:
-        st = rng.choice(live)
-        return [C.mk_rst(st.sid, rng.choice([0, 8]))]
+        cands = live
+        if not victim_is_server:
+            cands = [s for s in live if s.pushed or len(live) > 3] or live
+            keep = [s for s in cands if not (s.mine and not s.pushed)]      # (keep the one request that carries the pushes)
+            cands = keep or cands
+            if not keep and rng.random() < 0.98:
+                cands = []
+        if cands:
+            st = rng.choice(cands)
+            return [C.mk_rst(st.sid, rng.choice([0, 8]))]
     if r < 0.58 and live:
         cands = [s for s in live if s.state in ('open', 'hcL') and s.recv == 'final']
         if cands:
